@@ -45,6 +45,27 @@ def plan(tier):
     }
 
 
+_HELD = []
+
+
+def check_held(r, be):
+    """a profile returned by an earlier call must still hold the same data"""
+    for prof, saved, case in _HELD:
+        for k, v in saved.items():
+            if not np.array_equal(np.asarray(getattr(prof, k), float), v):
+                r.violation(ID, "stale_result", be, "stale_result/%s" % be,
+                            dict(case, later_calls="the calls made for the following states"),
+                            {k: v for k, v in saved.items()},
+                            {k: np.asarray(getattr(prof, k), float) for k in saved},
+                            "a profile object returned earlier was modified by later calls")
+                break
+    del _HELD[:]
+
+
+def hold(prof, case):
+    _HELD.append((prof, {k: np.array(getattr(prof, k), dtype=float) for k in ('x', 'y1', 'y2')}, case))
+
+
 def evaluate(r, trains, edges, mrts, ri, be, rank=()):
     import pyspike as spk
     ts, te = edges
@@ -61,6 +82,8 @@ def evaluate(r, trains, edges, mrts, ri, be, rank=()):
     r.traces += 1
     try:
         p = spk.spike_profile(st1, st2, MRTS=mrts, RI=ri)
+        check_held(r, be)       # the profile of the previous call, after this call was made
+        hold(p, case)
         x = np.asarray(p.x, dtype=float)
         y1 = np.asarray(p.y1, dtype=float)
         y2 = np.asarray(p.y2, dtype=float)
